@@ -27,6 +27,9 @@ def _rec_set(n):
 numba.set_num_threads = _rec_set
 
 
+X_QUERY = np.random.default_rng(3).standard_normal((4, 4)).astype(np.float32)
+
+
 def py_metric(x, y):  # deliberately NOT jitted: nn_descent fails to compile with it
     return float(np.abs(x - y).sum())
 
@@ -57,6 +60,12 @@ def scenarios(rng, tier):
             idx._distance_func = py_metric        # prepare() now fails inside diversify
             return ("prepare", idx)
         out.append(("fail-prepare-bad-distance-func", nj, prep_fail))
+    for nj in [None, 2]:
+        def amb(nj=nj, how="prepare"):
+            idx = NNDescent(X, n_neighbors=5, n_jobs=nj, random_state=1)
+            return ("ambient", idx, how)
+        out.append(("ok-prepare-after-ambient-change", nj, amb))
+        out.append(("ok-query-after-ambient-change", nj, lambda nj=nj: amb(nj, "query")))
     for nj in [0, 10 ** 6]:
         out.append(("fail-invalid-n_jobs", nj, lambda nj=nj: NNDescent(X, n_neighbors=5, n_jobs=nj, random_state=1)))
     return out
@@ -69,7 +78,17 @@ def run_one(res, name, nj, thunk, start):
     exc = None
     try:
         r = thunk()
-        if isinstance(r, tuple) and r[0] == "prepare":
+        if isinstance(r, tuple) and r[0] == "ambient":
+            # the process-wide count is changed by the application between construction and the first prepare / query
+            other = max(1, before - 1) if before > 1 else before
+            _real_set(other)
+            before = numba.get_num_threads()
+            del CALLS[:]
+            if r[2] == "prepare":
+                r[1].prepare()
+            else:
+                r[1].query(X_QUERY, k=3)
+        elif isinstance(r, tuple) and r[0] == "prepare":
             mid = numba.get_num_threads()
             if mid != before:
                 res.violation("threads:%s" % "constructor-before-prepare", "count %d -> %d" % (before, mid),
